@@ -85,6 +85,12 @@ func vhExArg(sel int) any {
 		return vhAliasCond(Cond("in", ComparisonOperator(9), "ner"))
 	case 11:
 		return vhAliasCond(Cond("in", Lt, "ner"))
+	case 12: // typed nil pointers whose types carry String methods
+		var np *vhStringer
+		return np
+	case 13:
+		var np *Stack
+		return np
 	}
 	return true
 }
@@ -127,9 +133,14 @@ func vhSameEx(a, b any) bool {
 	case vhStringer:
 		y, ok := b.(vhStringer)
 		return ok && x == y
+	case *vhStringer:
+		y, ok := b.(*vhStringer)
+		return ok && x == y
 	}
 	return vhSameElem(a, b)
 }
+
+const vhNoGrammar = "\x00unspecified"
 
 // vhExText is the reference rendering of an expression value.
 func vhExText(ex any) string {
@@ -153,6 +164,8 @@ func vhExText(ex any) string {
 		return x.String()
 	case vhAliasCond:
 		return Condition(x).String()
+	case *vhStringer, *Stack:
+		return vhNoGrammar // how a typed nil renders is not specified; it must not panic
 	}
 	return "?"
 }
@@ -177,6 +190,9 @@ func vhCheckCond(c Condition, m vhCondModel, id string) {
 			pad = ""
 		}
 		val := vhExText(m.ex)
+		if val == vhNoGrammar {
+			return
+		}
 		for i := len(cfg.enc); i > 0; i-- {
 			e := cfg.enc[i-1]
 			if len(e) == 1 {
@@ -233,7 +249,14 @@ func VH_C06_Step(p []int) {
 	noNest := cfg.opt&nnest != 0
 	switch p[0] {
 	case 0:
-		switch nondetChoice(4) {
+		switch nondetChoice(6) {
+		case 4:
+			// a nil pointer whose type has a String method, and a zero-valued
+			// stringer: neither is a keyword, neither may be called upon
+			var np *vhStringer
+			c.SetKeyword(np)
+		case 5:
+			c.SetKeyword(vhStringer{})
 		case 0:
 			c.SetKeyword("other")
 			m.kw = "other"
@@ -253,7 +276,7 @@ func VH_C06_Step(p []int) {
 			m.op = op
 		}
 	case 2:
-		ex := vhExArg(nondetChoice(12))
+		ex := vhExArg(nondetChoice(14))
 		c.SetExpression(ex)
 		if vhExAcceptable(ex, noNest, hasErr) {
 			m.ex = ex
@@ -274,7 +297,7 @@ func VH_C06_Hist(p []int) {
 			kw = "kw"
 		}
 		op := vhOpArg(nondetChoice(10))
-		ex := vhExArg(nondetChoice(12))
+		ex := vhExArg(nondetChoice(14))
 		c = Cond(kw, op, ex)
 		m.kw = kw
 		if vhOpAcceptable(op) {
@@ -311,7 +334,7 @@ func VH_C06_Hist(p []int) {
 				m.op = op
 			}
 		case 2:
-			ex := vhExArg(nondetChoice(12))
+			ex := vhExArg(nondetChoice(14))
 			c.SetExpression(ex)
 			if vhExAcceptable(ex, noNest, false) {
 				m.ex = ex
